@@ -255,6 +255,8 @@ def print_variant(v, split, with_strum=True, indent="    "):
     else:
         fs = []
         for f in v["fields"]:
+            if f.get("scope"):
+                continue        # not a field: a constant of the surrounding scope that a placeholder captures (C17)
             a = '#[strum(default_with = "%s")] ' % f["dw"] if f.get("dw") else ""
             fs.append("%s%s: %s" % (a, f["name"], _field_ty(f)))
         body = "%s { %s }" % (ident, ", ".join(fs))
@@ -412,7 +414,7 @@ def ctor(E, v, which=0, vals=None):
     xs = vals if vals is not None else [_fval(E, f, which) for f in v["fields"]]
     if v["kind"] == "tuple":
         return "%s(%s)" % (ident, ", ".join(xs))
-    return "%s { %s }" % (ident, ", ".join("%s: %s" % (f["name"], x) for f, x in zip(v["fields"], xs)))
+    return "%s { %s }" % (ident, ", ".join("%s: %s" % (f["name"], x) for f, x in zip(v["fields"], xs) if not f.get("scope")))
 
 
 def expected_payload(E, v, honour_default_with=True):
